@@ -258,6 +258,16 @@ type world struct {
 	bursts       int
 	failedSaves  int
 	reordered    bool
+	held         [3]*heldTxn // per member slot: a window save that is on its way to etcd and has not arrived yet
+}
+
+// heldTxn is one write Txn of a member's etcd client that was sent and is still under way: the caller
+// (UpdateTSO or SetTSO, on its own goroutine) waits for the answer, the request reaches etcd when rel is closed.
+type heldTxn struct {
+	caught  bool
+	arrived chan struct{} // closed when the Txn reached the hook
+	rel     chan struct{} // closed to let it go on to etcd
+	done    chan error    // result of the allocator call
 }
 
 func (w *world) violate(prop, format string, a ...interface{}) {
@@ -278,6 +288,18 @@ func (w *world) install() {
 	for si := range w.sl {
 		si := si
 		w.sl[si].hooks.Set(func(ev *etcdfix.Event) etcdfix.Action {
+			if ev.Method == "Txn" && ev.Write {
+				w.mu.Lock()
+				h := w.held[si]
+				if h != nil && !h.caught {
+					h.caught = true
+					w.mu.Unlock()
+					close(h.arrived)
+					<-h.rel
+					return etcdfix.Proceed
+				}
+				w.mu.Unlock()
+			}
 			if sc := w.sched; sc != nil {
 				if err := sc.Enter(ev.Method, fmt.Sprint(si)); err != nil {
 					return etcdfix.FailBefore
@@ -475,6 +497,9 @@ func RunX(c Case, only string) (vkit.Info, []Violation, Stats) {
 	w.install()
 	sleepHook.Store(func(d time.Duration) { w.onSleep(d) })
 	defer func() {
+		for i := range w.held {
+			w.release(i)
+		}
 		sleepHook.Store(func(d time.Duration) { atomic.AddInt64(&clockNow, int64(d)) })
 		for _, s := range sl {
 			s.hooks.Set(nil, nil)
@@ -526,6 +551,9 @@ func RunX(c Case, only string) (vkit.Info, []Violation, Stats) {
 			w.violate("C02", "after op %d (%s): etcd holds bound %s but the applied-txn log says %s", step, op.K, fmtT(real), fmtT(w.B))
 			break
 		}
+	}
+	for i := range w.held {
+		w.release(i)
 	}
 	info.ClassIf(w.handover > 0, "handover")
 	info.ClassIf(w.handover > 1, "handover>=2")
@@ -672,8 +700,66 @@ func (w *world) stepDown(m *mem) {
 	m.leader, m.inited = false, false
 }
 
+// hold starts a window update of member m on its own goroutine and parks
+// the write Txn it sends: the request is under way. Later ops run while it is; it arrives at "release", before the
+// next op of the same member that needs the allocator's update mutex, inside that member's next initialisation
+// (the initialisation waits for the mutex), or at the end of the case.
+func (w *world) hold(op Op, m *mem) {
+	if m.dead || !m.leader || !m.inited || w.held[m.idx] != nil {
+		return
+	}
+	h := &heldTxn{arrived: make(chan struct{}), rel: make(chan struct{}), done: make(chan error, 1)}
+	w.mu.Lock()
+	w.held[m.idx] = h
+	w.mu.Unlock()
+	// (only the update tick is held: a manual reset keeps the timestamp lock while it saves, so the member could
+	// neither step down nor answer requests while its save is under way)
+	al := m.alloc
+	go func() { h.done <- al.UpdateTSO() }()
+	select {
+	case <-h.arrived:
+		w.info.Class("save-under-way")
+	case <-h.done:
+		// no save was needed
+		w.mu.Lock()
+		w.held[m.idx] = nil
+		w.mu.Unlock()
+	}
+}
+
+// release lets the parked save of slot i reach etcd and waits for the allocator call to return.
+func (w *world) release(i int) {
+	w.mu.Lock()
+	h := w.held[i]
+	w.held[i] = nil
+	w.mu.Unlock()
+	if h == nil {
+		return
+	}
+	close(h.rel)
+	select {
+	case <-h.done:
+	case <-time.After(30 * time.Second):
+		w.info.Inconclusive = true
+	}
+	if w.holder != i {
+		w.info.Class("save-arrived-after-step-down")
+	}
+}
+
 func (w *world) step(step int, op Op, m *mem) {
+	if w.held[m.idx] != nil {
+		switch op.K {
+		case "update", "settso", "burst", "race", "hold":
+			// these need the allocator's update mutex, which the waiting call holds
+			w.release(m.idx)
+		}
+	}
 	switch op.K {
+	case "hold":
+		w.hold(op, m)
+	case "release":
+		w.release(m.idx)
 	case "campaign":
 		if m.dead {
 			return
@@ -711,7 +797,19 @@ func (w *world) step(step int, op Op, m *mem) {
 			w.failNext[m.idx] = strings.TrimPrefix(op.Fail, "init-")
 			w.mu.Unlock()
 		}
-		if err := m.alloc.Initialize(0); err != nil {
+		var ierr error
+		if w.held[m.idx] != nil {
+			// the save of an earlier term is still under way: the initialisation waits for the allocator's
+			// update mutex, the delayed request arrives now
+			ic := make(chan error, 1)
+			go func() { ic <- m.alloc.Initialize(0) }()
+			w.release(m.idx)
+			ierr = <-ic
+			w.info.Class("save-arrived-in-next-term")
+		} else {
+			ierr = m.alloc.Initialize(0)
+		}
+		if err := ierr; err != nil {
 			// as server.campaignLeader does: it returns BEFORE it registers ResetAllocatorGroup, so a failed
 			// initialization only gives the leadership up and leaves the allocator's memory as it is
 			w.info.Class("init-failed")
